@@ -122,7 +122,7 @@ def load_known(pid: str) -> list:
         with open(path) as f:
             for line in f:
                 line = line.strip()
-                if not line or line.startswith("#"):
+                if not line.startswith("{"):
                     continue
                 e = json.loads(line)
                 if e.get("property") == pid:
